@@ -122,6 +122,7 @@ package serviceinfo
 //@   callsites nextPipe 1
 //@   callassert nextPipe#1: @yield u(arg0) == u(w) && arg1
 //@   ensures @yielded result == nil ==> closed(w.w) == True()
+//@   ghostset forcednew(w) := True()
 
 // The reader handed to the consumer is the one received; its key is decoded from it.
 //@ func serviceinfo.UnchunkReader.NextServiceInfo
@@ -179,3 +180,22 @@ package serviceinfo
 //@   callassert chansend#1: @errpipe u(arg0) == u(w.readers) && old(w.w) == nil
 //@   callassert chansend#1: @errreader u(unwrap(arg1)) == u(pr)
 //@   callassert CloseWithError#1: @last u(recv) == u(w.w) && u(arg1) == u(err)
+
+// The queue between the two ends holds as many logical values as the caller asked for:
+// TO2Server.ownerServiceInfo writes every KV of a request before anything is read, so a
+// smaller queue blocks the responder for ever (C16, C10: no hang on a peer-chosen count).
+//@ func serviceinfo.NewChunkInPipe
+//@   params buffers
+//@   props C16 C15 C10(sweep,assert)
+//@   sweep bounds,panic
+//@   callsites makechan 2
+//@   callassert makechan#1: @unbuffered arg0 == 0
+//@   callassert makechan#2: @capacity arg0 == buffers && buffers > 0
+
+//@ func serviceinfo.NewChunkOutPipe
+//@   params buffers
+//@   props C16 C15 C10(sweep,assert)
+//@   sweep bounds,panic
+//@   callsites makechan 3
+//@   callassert makechan#1: @unbuffered arg0 == 0
+//@   callassert makechan#2: @capacity arg0 == buffers && buffers > 0
